@@ -211,6 +211,18 @@ def rule_declsrc(ctx):
                        "Create": [fx.fn("core2axcut::statements::cut::shrink_critical_pairs")["key"]]}
         except AnalysisError:
             raise AnalysisError("R-DECLSRC: the functions that generate a match / a comatch from a declaration were not found (%s)" % {h_: len(v_) for h_, v_ in targets.items()})
+    def folded():
+        """the facts this rule reads off the structure of the code, read off the folded translation instead (R-CUTKIND: the clauses
+        generated for <x | a> and for critical pairs enumerate the declaration in order, tag and binders agree)"""
+        r2 = rule_cutkind(ctx)
+        want = [i for i in r2.instances if i["key"].startswith("<x | a> at a ") or i["key"].endswith(":clauses")]
+        return len(want) >= 8 and all(i["verdict"] == "ok" for i in want)
+
+    def fold_ok():
+        try:
+            return ctx.memo("declsrc_by_fold", folded)
+        except AnalysisError:
+            return False
     for key in (targets["Switch"][0], targets["Create"][0]):
         fn = Fn(fx.fns[key])
         real_key = key
@@ -226,6 +238,9 @@ def rule_declsrc(ctx):
                 res.inst(key + ":clauses-from-declaration", s["sp"]["file"], s["sp"]["line"], "ok", "map over lookup_type_declaration(..).xtors")
             elif (any(o[0] == "agg" for o in roots) and not calls) or (calls and calls <= {"box_assume_init_into_vec_unsafe", "into_vec"}):
                 res.inst(key + ":clauses-literal(int)", s["sp"]["file"], s["sp"]["line"], "ok", "integer case: literal one-clause vector", nontrivial=False)
+            elif fold_ok():
+                n_ok += 1
+                res.inst(key + ":clauses-from-declaration", s["sp"]["file"], s["sp"]["line"], "ok", "built through helpers; the folded translation enumerates the declaration in order")
             else:
                 res.inst(key + ":clauses-from-declaration", s["sp"]["file"], s["sp"]["line"], "violation")
                 res.violate(key + ":clauses-from-declaration", "%s: the clause vector of the generated (co)match is not an order-preserving map over the "
@@ -281,7 +296,12 @@ def rule_declsrc(ctx):
                     res.inst(ikey, cl[0]["sp"]["file"], cl[0]["sp"]["line"], "violation")
                     res.violate(ikey, "%s: %s" % (key, msg), cl[0]["sp"]["file"], cl[0]["sp"]["line"])
         if not found:
-            raise AnalysisError("R-DECLSRC: clause-building closure of %s not found" % key)
+            # the clauses are built somewhere else (a helper that takes the body of a clause as a closure, say): the same facts - tag and
+            # binders of a clause are those of the statement in its body - are read off the folded translation by R-CUTKIND
+            if not fold_ok():
+                raise AnalysisError("R-DECLSRC: clause-building closure of %s not found" % key)
+            for nm in ("tag", "env", "fresh"):
+                res.inst("%s:clause-%s" % (key, nm), fn.file, fn.line, "ok", "read off the folded translation (R-CUTKIND: generated clauses)")
     res.require_floor(8)
     return res
 
@@ -615,6 +635,40 @@ def rule_cutkind(ctx):
             return clauses_ok(st.fields["clauses"], spec)
         return c
 
+    def chk_eta(keep, expand, spec):
+        """<x | a> at a declared type: a switch on the side that is kept whose clauses enumerate the declaration in order, bind fresh,
+        pairwise distinct variables (as many as the xtor has parameters) and invoke the same xtor with exactly those on the other side"""
+        def c(kind, st, ev):
+            if kind != "Switch":
+                return "is translated to `%s`, expected a `switch` over the declaration's xtors (eta-expansion)" % kind
+            if vid(st.fields["var"]) != keep:
+                return "switches on %s, expected %s" % (vid(st.fields["var"]), keep)
+            cl = st.fields["clauses"]
+            if not isinstance(cl, _Vec) or len(cl.items) != len(spec):
+                return "the generated clause list has %s entries, the declaration has %d xtors" % (len(cl.items) if isinstance(cl, _Vec) else "?", len(spec))
+            seen_ids = set()
+            for c_, (x, n_) in zip(cl.items, spec):
+                c_ = c_ if isinstance(c_, _Adt) else None
+                if c_ is None:
+                    raise AnalysisError("R-CUTKIND: a generated clause is not a concrete value")
+                if c_.fields["xtor"].fields.get("name") != x:
+                    return "clause %d is for %s, the declaration has %s at that place" % (len(seen_ids), c_.fields["xtor"].fields.get("name"), x)
+                ids_ = arg_ids(c_.fields["context"])
+                if ids_ is None or len(ids_) != n_:
+                    return "the clause for %s binds %s variables, the xtor has %d parameters" % (x, len(ids_) if ids_ is not None else "?", n_)
+                if any((not isinstance(i_, int)) or i_ <= 100 or i_ in seen_ids for i_ in ids_) or len(set(ids_)) != len(ids_):
+                    return "the binders %s of the clause for %s are not fresh, pairwise distinct variables" % (ids_, x)
+                seen_ids |= set(ids_)
+                body = c_.fields.get("body")
+                k2, inv = unwrap(body if not isinstance(body, _interp.Ref) else None)
+                if k2 != "Invoke" or not isinstance(inv, _Adt):
+                    return "the body of the clause for %s is `%s`, expected an invoke" % (x, k2)
+                if vid(inv.fields["var"]) != expand or inv.fields["tag"].fields.get("name") != x or arg_ids(inv.fields["args"]) != ids_:
+                    return "the clause for %s invokes %s.%s(%s), expected %s.%s(%s): tag and arguments are those of the clause" % (
+                        x, vid(inv.fields["var"]), inv.fields["tag"].fields.get("name"), arg_ids(inv.fields["args"]), expand, x, ids_)
+            return None
+        return c
+
     def chk_renaming(body, frm, to):
         def c(kind, st, ev):
             subs = [e for e in ev if e[0] == "subst"]
@@ -676,6 +730,8 @@ def rule_cutkind(ctx):
         ("<cocase {..} | a>", xcase(PRD, CLC, TC), xvar(CNS, "a", A_, TC), TC, chk_switch(A_, CLC)),
         ("<cocase {..} | mu~v.s>", xcase(PRD, CLC, TC), mu(CNS, "v", V, "s", TC), TC, chk_create(V, CLC, "s")),
         ("<mu a.s | case {..}>", mu(PRD, "a", V, "s", TD), xcase(CNS, CLS, TD), TD, chk_create(V, CLS, "s")),
+        ("<x | a> at a data type", xvar(PRD, "x", X, TD), xvar(CNS, "a", A_, TD), TD, chk_eta(X, A_, [("K0", 0), ("K1", 2)])),
+        ("<x | a> at a codata type", xvar(PRD, "x", X, TC), xvar(CNS, "a", A_, TC), TC, chk_eta(A_, X, [("d0", 1), ("d1", 2)])),
         ("<42 | mu~v.s>", LIT, mu(CNS, "v", V, "s", I64), I64, chk_lit(V, "s")),
         ("<42 | a>", LIT, xvar(CNS, "a", A_, I64), I64, chk_lit(None, None)),
         ("<u - w | mu~v.s>", OP, mu(CNS, "v", V, "s", I64), I64, chk_op(V, "s")),
@@ -799,6 +855,46 @@ def rule_cutkind(ctx):
                     if isinstance(v, _Vec) and d < 12:
                         return any(mentions(x, d + 1) for x in v.items)
                     return False
+                # the generated (co)match enumerates the declaration: one clause per xtor, in order, fresh pairwise distinct binders, and in
+                # the clause a `let` of the same xtor applied to exactly those binders
+                spec_ = {"data": [("K0", 0), ("K1", 2)], "codata": [("d0", 1), ("d1", 2)]}.get(tyname)
+                shape_problem = None
+                for o in paths if spec_ else []:
+                    k_, st_ = unwrap(o.result if not isinstance(o.result, _interp.Ref) else None)
+                    if k_ != "Create" or not isinstance(st_, _Adt):
+                        continue        # not an eta-expansion on this path (judged by the evaluation-order part below)
+                    cl = st_.fields.get("clauses")
+                    if not isinstance(cl, _Vec):
+                        raise AnalysisError("R-CUTKIND: the clause list generated for %s is not a concrete list" % ikey)
+                    if len(cl.items) != len(spec_):
+                        shape_problem = "the generated clause list has %d entries, the declaration has %d xtors" % (len(cl.items), len(spec_))
+                        break
+                    seen_ids = set()
+                    for c_, (x, n_) in zip(cl.items, spec_):
+                        if not isinstance(c_, _Adt):
+                            raise AnalysisError("R-CUTKIND: a generated clause is not a concrete value")
+                        ids_ = arg_ids(c_.fields["context"])
+                        k2, lt = unwrap(c_.fields.get("body") if not isinstance(c_.fields.get("body"), _interp.Ref) else None)
+                        if c_.fields["xtor"].fields.get("name") != x:
+                            shape_problem = "a generated clause is for %s where the declaration has %s" % (c_.fields["xtor"].fields.get("name"), x)
+                        elif ids_ is None or len(ids_) != n_ or len(set(ids_)) != len(ids_) or any((not isinstance(i_, int)) or i_ <= 100 or i_ in seen_ids for i_ in ids_):
+                            shape_problem = "the clause for %s binds %s: not %d fresh, pairwise distinct variables" % (x, ids_, n_)
+                        elif k2 != "Let" or not isinstance(lt, _Adt):
+                            shape_problem = "the body of the clause for %s is `%s`, expected a let of %s" % (x, k2, x)
+                        elif lt.fields["tag"].fields.get("name") != x or arg_ids(lt.fields["args"]) != ids_:
+                            shape_problem = "the clause for %s binds %s but its body builds %s(%s)" % (x, ids_, lt.fields["tag"].fields.get("name"), arg_ids(lt.fields["args"]))
+                        elif not isinstance(vid(lt.fields["var"]), int) or vid(lt.fields["var"]) <= 100 or vid(lt.fields["var"]) in seen_ids | set(ids_):
+                            shape_problem = "the clause for %s binds the rebuilt value to %s, which is not a fresh variable" % (x, vid(lt.fields["var"]))
+                        if shape_problem:
+                            break
+                        seen_ids |= set(ids_) | {vid(lt.fields["var"])}
+                    if shape_problem:
+                        break
+                if shape_problem:
+                    res.inst(ikey + ":clauses", f["sp"]["file"], f["sp"]["line"], "violation")
+                    res.violate(ikey + ":clauses", "%s: %s" % (ikey, shape_problem), f["sp"]["file"], f["sp"]["line"])
+                elif spec_:
+                    res.inst(ikey + ":clauses", f["sp"]["file"], f["sp"]["line"], "ok", "the generated clauses enumerate the declaration")
                 missing = None
                 for o in paths:
                     shrunk = [e[1] for e in o.events if e[0] == "shrink"]
